@@ -127,6 +127,8 @@ class BuildRun:
         self.ctx = ctx
         self.pt = pt
         self.writes: list[Write] = []
+        self.helper_calls: list[tuple[str, str, dict[str, AV], str]] = []  # (row, helper qualname, bound args, chain)
+        self.format_actions: dict[str, int] = {}
         self.actions: dict[str, int] = {}
         self.problems: list[str] = []
         self.steps = 0
@@ -142,6 +144,13 @@ class BuildRun:
         for ch, expr in self.pt.rows.items():
             self.run_row(ch, expr)
 
+    def value_type(self) -> str | None:
+        """T of the parser (`_IPatternParser[T]`)."""
+        for b in self.pt.parser.base_exprs:
+            if isinstance(b, ast.Subscript) and unparse(b.value).endswith("_IPatternParser"):
+                return unparse(b.slice).split(".")[-1]
+        return None
+
     def run_row(self, ch: str, expr: ast.expr) -> None:
         M = self.ctx.M
         pt = self.pt
@@ -150,6 +159,7 @@ class BuildRun:
         I._inline_stack = [id(h)]
         I._inline_names = [h.qual]
         queued: list[NN] = []
+        fqueued: list[NN] = []
 
         def on_call(c: ast.Call, f: Func, bound: dict[str, AV], st: State, fn: Func) -> None:
             if f.name == "_add_parse_action" and f.cls is not None and f.cls.name == "_SteppedPatternBuilder":
@@ -158,6 +168,10 @@ class BuildRun:
                     queued.append(v)
                 else:
                     self.problems.append(f"row {ch!r}: parse action registered at {fn.qual} is not a resolvable closure ({v!r})")
+            if f.name == "_add_format_action" and f.cls is not None and f.cls.name == "_SteppedPatternBuilder":
+                v = bound.get("format_action")
+                if isinstance(v, NN) and v.func is not None:
+                    fqueued.append(v)
 
         I.on_call = on_call
         try:
@@ -175,6 +189,24 @@ class BuildRun:
             self.problems.append(f"row {ch!r}: handler {hv.func.qual} could not be evaluated ({I.opaque_log[-1:]})")
             return
         self.actions[ch] = len(queued)
+        self.format_actions[ch] = len(fqueued)
+        vt = self.value_type()
+        if vt is not None:
+            for fa in fqueued:
+                I3 = self._interp()
+                I3._inline_stack = [id(h)]
+                I3._inline_names = [h.qual]
+
+                def on_helper(c: ast.Call, f: Func, bound: dict[str, AV], st: State, fn: Func, _ch: str = ch, _I: Interp = I3) -> None:
+                    if f.cls is not None and f.cls.name == "_FormatHelper":
+                        self.helper_calls.append((_ch, f.qual, dict(bound), " > ".join(_I._inline_names[-3:])))
+
+                I3.on_call = on_helper
+                try:
+                    I3.inline(fa.func, [Obj(vt), Obj("StringBuilder")], {}, State(), h, 0, fa.recv, expr, [], {}, env=fa.env)
+                except RecursionError:
+                    pass
+                self.steps += I3.steps
         if pt.bucket is None:
             return
         # run the registered parse actions on an abstract cursor / bucket
